@@ -17,11 +17,11 @@ the events hold for `l`, in event order, skipping the events that do not list `l
 `Spec/Extrema.lean`.
 
 Hypotheses (`EvOk`): every event's category has as many rows as labels and lists no label twice
-(otherwise the code raises `ValueError`: `form_extreme_refuses_repeated_labels`); the events all have
-abscissae or none has (`hx`; `abscissa_none_first_counterexample` shows what the code does otherwise —
-a finding, reported by the oracle); every event but the first has the per-case columns `mx, mn, mx_x,
-mn_x` (recovery results and lower-level envelopes have; an `add_maxmin` event does not and `_expand`
-raises `KeyError`: `form_extreme_needs_percase_columns`, also a finding).
+(otherwise the code raises `ValueError`: `form_extreme_refuses_repeated_labels`), and a table without
+`ext_x` carries NaN abscissae (the harness's encoding; the code never reads them).  Nothing is asked
+about WHICH events have abscissae (since fix 19ddbb5, F57, an event without x-values contributes NaN
+abscissae for the rows it governs: `abscissa_of_governing_event_mixed`) nor about per-case members
+(since fix 40cd789, F58, `add_maxmin` events that list other rows are enveloped like the others).
 -/
 namespace PyYetiVerif.C16
 open PyYetiVerif.Extrema PyYetiVerif.ExtremaLabels
@@ -70,23 +70,28 @@ section bylabel
 variable {α X Lb : Type} [LinearOrder α] [DecidableEq Lb]
 
 /-- ★ `form_extreme` for one category over ANY events — whatever rows each lists and in whatever
-order: identical, permuted, a subset, disjoint, partly overlapping —: the call succeeds; the rows of
-the envelope are the iterated `merge_lists` of the events' label lists (`labelFold`), each label of
-each event exactly once; and the row at position `p` holds, for its label `l`, exactly
+order: identical, permuted, a subset, disjoint, partly overlapping; recovery events, `add_maxmin`
+events, lower-level envelopes; abscissae given by all, some or none of them —: the call succeeds; the
+rows of the envelope are the iterated `merge_lists` of the events' label lists (`labelFold`), each
+label of each event exactly once; and the row at position `p` holds, for its label `l`, exactly
 `specRow d nc l events`: the compare-and-replace fold over the rows the events hold FOR `l`
-(`rowFold`: value, abscissa and governing label move together), and in the per-case columns `mx, mn,
-mx_x, mn_x` at column `j` what the event with case number `j` holds for `l`, NaN when it does not
-list `l`. -/
-theorem form_extreme_by_label (d nc : Nat) (hx : Bool) (e0 : Ev α X Lb) (es : List (Ev α X Lb))
-    (h0 : EvOk hx e0) (hes : ∀ e ∈ es, EvOk hx e ∧ e.cat.hasMx = true) :
+(`rowFold`: value, abscissa and governing label move together — the abscissa is NaN when the governing
+event has none), and in the per-case columns `mx, mn, mx_x, mn_x` at column `j` what the event with
+case number `j` holds for `l`, NaN when it does not list `l`.  `ext_x` is never invented (it is there
+only if some event has one) and never lost once the first event brought one. -/
+theorem form_extreme_by_label (d nc : Nat) (e0 : Ev α X Lb) (es : List (Ev α X Lb))
+    (h0 : EvOk e0) (hes : ∀ e ∈ es, EvOk e) :
     ∃ a, formCat d nc none (e0 :: es) = .ok (some a) ∧
       a.labels = labelFold e0.cat.labels (es.map (·.cat.labels)) ∧ a.labels.Nodup ∧
       (∀ l, l ∈ a.labels ↔ ∃ e ∈ e0 :: es, l ∈ e.cat.labels) ∧
-      a.rows.length = a.labels.length ∧ a.hasX = hx ∧
+      a.rows.length = a.labels.length ∧
+      (a.hasX = true → ∃ e ∈ e0 :: es, e.cat.hasX = true) ∧ (e0.cat.hasX = true → a.hasX = true) ∧
+      (a.hasX = false → ∀ r ∈ a.rows, r.cur.hi.x = none ∧ r.cur.lo.x = none) ∧
       ∀ (p : Nat) (hp : p < a.labels.length), a.rows[p]? = some (specRow d nc a.labels[p] (e0 :: es)) := by
-  obtain ⟨a0, hs0, hinv0⟩ := formStep_init d nc hx e0 h0
-  obtain ⟨a, ha, hinv⟩ := formCat_inv d nc hx e0 es [] a0 hinv0 hes
-  refine ⟨a, ?_, by simpa using hinv.lab, hinv.nodup, by simpa using hinv.mem, hinv.len, hinv.hasX, ?_⟩
+  obtain ⟨a0, hs0, hinv0⟩ := formStep_init d nc e0 h0
+  obtain ⟨a, ha, hinv⟩ := formCat_inv d nc e0 es [] a0 hinv0 hes
+  refine ⟨a, ?_, by simpa using hinv.lab, hinv.nodup, by simpa using hinv.mem, hinv.len,
+    by simpa using hinv.xsrc, hinv.xfirst, hinv.nox, ?_⟩
   · simp only [formCat, hs0]
     exact ha
   · intro p hp
@@ -251,30 +256,28 @@ theorem form_extreme_refuses_repeated_labels (nc : Nat) (a : Acc α X Lb) (c : C
       simp [this]
   simp [checkRows, hne, this]
 
-/-- what the code does with an `add_maxmin` event (no `mx, mn, mx_x, mn_x`) that lists other rows than
-the envelope so far: `_expand` raises `KeyError` — a finding (the event's per-case columns are never
-used afterwards), reported by the oracle; `form_extreme_by_label` therefore asks `hasMx` of every
-event but the first. -/
-theorem form_extreme_needs_percase_columns (nc : Nat) (a : Acc α X Lb) (c : Cat α X Lb)
-    (hne : a.labels ≠ c.labels) (ha : a.labels.Nodup) (hc : c.labels.Nodup) (hmx : c.hasMx = false) :
-    checkRows nc a c = .error .key := by
-  simp [checkRows, hne, (nodupB_iff _).2 ha, (nodupB_iff _).2 hc, hmx]
+/-- ★ two different label lists without repeats are ACCEPTED whatever kind of event they come from
+(also an `add_maxmin` event, which has no per-case members: fix 40cd789, F58): both sides are expanded
+onto the merged list — and `form_extreme_by_label` says what the envelope then holds. -/
+theorem form_extreme_accepts_differing_rows (nc : Nat) (a : Acc α X Lb) (c : Cat α X Lb)
+    (hne : a.labels ≠ c.labels) (ha : a.labels.Nodup) (hc : c.labels.Nodup) :
+    checkRows nc a c = .ok (expandAcc nc a (mergeLists a.labels c.labels).1 (mergeLists a.labels c.labels).2.1,
+      expandCat c (mergeLists a.labels c.labels).1 (mergeLists a.labels c.labels).2.2) := by
+  simp [checkRows, hne, (nodupB_iff _).2 ha, (nodupB_iff _).2 hc]
 
 end refusals
 
-/-! ### the hypothesis "all events have abscissae, or none" is needed — observation (b) -/
+/-! ### events with and without abscissae (finding F57, repaired by 19ddbb5) -/
 
-/-- two events, one row `a`.  `S` (no abscissae, e.g. a static case added with `add_maxmin` inside a
-group) has the larger maximum 100, `T` (a transient, abscissae given) wins the minimum.  `S` first:
-the envelope's maximum is `S`'s 100, labelled `S`, but its abscissa is `T`'s time `7` — `_put_time`
-copied `T`'s whole `ext_x` when the envelope had none.  `T` first: the same values and labels, and the
-abscissa of the maximum is NaN.  So the abscissa is not that of an attaining event, and it depends on
-the order of the events. -/
-theorem abscissa_none_first_counterexample :
-    let S : Ev Int Int String := ⟨0, "S", false, ⟨["a"], false, true, [⟨⟨some 100, none, "s"⟩, ⟨some 0, none, "s"⟩⟩]⟩⟩
-    let T : Ev Int Int String := ⟨1, "T", false, ⟨["a"], true, true, [⟨⟨some 5, some 7, "t"⟩, ⟨some (-3), some 8, "t"⟩⟩]⟩⟩
+/-- two events, one row `a`.  `S` (no abscissae, e.g. a static case added with `add_maxmin`) has the
+larger maximum 100, `T` (a transient, abscissae given) wins the minimum.  Whatever the order of the
+two, the envelope's maximum is `S`'s 100, labelled `S`, with a NaN abscissa (`S` has none), and its
+minimum is `T`'s with `T`'s time.  (Before the repair, `S` first gave the maximum `T`'s time 7.) -/
+theorem abscissa_of_governing_event_mixed :
+    let S : Ev Int Int String := ⟨0, "S", false, ⟨["a"], false, [⟨⟨some 100, none, "s"⟩, ⟨some 0, none, "s"⟩⟩]⟩⟩
+    let T : Ev Int Int String := ⟨1, "T", false, ⟨["a"], true, [⟨⟨some 5, some 7, "t"⟩, ⟨some (-3), some 8, "t"⟩⟩]⟩⟩
     (formCat 0 2 none [S, T]).toOption.join.map (fun a => (a.hasX, a.rows.map (·.cur)))
-      = some (true, [⟨⟨some 100, some 7, "S"⟩, ⟨some (-3), some 8, "T"⟩⟩]) ∧
+      = some (true, [⟨⟨some 100, none, "S"⟩, ⟨some (-3), some 8, "T"⟩⟩]) ∧
     (formCat 0 2 none [{ T with j := 0 }, { S with j := 1 }]).toOption.join.map
         (fun a => (a.hasX, a.rows.map (·.cur)))
       = some (true, [⟨⟨some 100, none, "S"⟩, ⟨some (-3), some 8, "T"⟩⟩]) := by
@@ -290,9 +293,9 @@ row the envelope of the rows OF THAT NAME, per-case columns NaN where an event l
 example :
     let row : Int → Int → String → Cur Int (Option Int) String :=
       fun hi lo s => ⟨⟨some hi, some 0, s⟩, ⟨some lo, some 1, s⟩⟩
-    let A : Ev Int Int String := ⟨0, "A", false, ⟨["a", "b", "c"], true, true, [row 2 0 "x", row 3 (-4) "x", row 6 0 "x"]⟩⟩
-    let B : Ev Int Int String := ⟨1, "B", false, ⟨["c", "a", "b"], true, true, [row 10 0 "x", row 0 (-1) "x", row 7 (-9) "x"]⟩⟩
-    let C : Ev Int Int String := ⟨2, "C", false, ⟨["d", "b"], true, true, [row 5 5 "x", row 1 (-20) "x"]⟩⟩
+    let A : Ev Int Int String := ⟨0, "A", false, ⟨["a", "b", "c"], true, [row 2 0 "x", row 3 (-4) "x", row 6 0 "x"]⟩⟩
+    let B : Ev Int Int String := ⟨1, "B", false, ⟨["c", "a", "b"], true, [row 10 0 "x", row 0 (-1) "x", row 7 (-9) "x"]⟩⟩
+    let C : Ev Int Int String := ⟨2, "C", false, ⟨["d", "b"], true, [row 5 5 "x", row 1 (-20) "x"]⟩⟩
     (formCat 0 3 none [A, B, C]).toOption.join.map (·.labels) = some ["a", "d", "b", "c"] ∧
     (formCat 0 3 none [A, B, C]).toOption.join.map (fun a => a.rows.map fun r => (r.cur.hi.v, r.cur.hi.lab))
       = some [(some 2, "A"), (some 5, "C"), (some 7, "B"), (some 10, "B")] ∧
@@ -300,15 +303,16 @@ example :
       = some [(some (-1), "B"), (some 5, "C"), (some (-20), "C"), (some 0, "A")] ∧
     (formCat 0 3 none [A, B, C]).toOption.join.map (fun a => a.rows.map (·.mx))
       = some [[some 2, some 0, none], [none, none, some 5], [some 3, some 7, some 1], [some 6, some 10, none]] ∧
-    EvOk true A ∧ EvOk true B ∧ EvOk true C := by
+    EvOk A ∧ EvOk B ∧ EvOk C := by
   intro row A B C
   refine ⟨by decide +kernel, by decide +kernel, by decide +kernel, by decide +kernel, ?_, ?_, ?_⟩ <;>
-    exact ⟨by decide, by decide, rfl, fun h => absurd h (by decide)⟩
+    exact ⟨by decide, by decide, fun h => absurd h (by decide)⟩
 
-/-- the refusals occur: a repeated label against another list, and an event without per-case columns -/
+/-- the refusal occurs, and an event of `add_maxmin` kind with the same rows in another order is accepted -/
 example :
-    checkRows 1 (⟨["a", "a"], false, []⟩ : Acc Int Int String) ⟨["a"], false, true, []⟩ = .error .value ∧
-    checkRows 1 (⟨["a", "b"], false, []⟩ : Acc Int Int String) ⟨["b", "a"], false, false, []⟩ = .error .key := by
+    checkRows 1 (⟨["a", "a"], false, []⟩ : Acc Int Int String) ⟨["a"], false, []⟩ = .error .value ∧
+    (checkRows 1 (⟨["a", "b"], false, []⟩ : Acc Int Int String) ⟨["b", "a"], false, []⟩).toOption.map
+      (fun p => (p.1.labels, p.2.labels)) = some (["a", "b"], ["a", "b"]) := by
   decide
 
 end PyYetiVerif.C16
